@@ -597,6 +597,20 @@ class ExcelModel:
         }
 
         res = dsp()
+        from ..functions import COMPILING
+        stack = [  # Volatile cells are evaluated at call time, never stored.
+            k for k, d in dsp.function_nodes.items() if COMPILING in getattr(
+                getattr(d['function'], 'func', None), 'dsp', dsp
+            ).nodes
+        ]
+        seen = set(stack)
+        while stack:
+            for k in dsp.dmap.succ[stack.pop()]:
+                if k not in seen:
+                    seen.add(k)
+                    stack.append(k)
+        for k in seen:
+            res.pop(k, None)
 
         dsp = dsp.get_sub_dsp_from_workflow(
             outputs, graph=dsp.dmap, reverse=True, blockers=res,
